@@ -249,27 +249,30 @@ func stdlibSeal(kek, iv, pt, ad []byte) []byte {
 }
 
 // applyInj applies the nil injections of an M line.
-func applyInj(ks *tinkpb.Keyset, inj string) *tinkpb.Keyset {
+func applyInj(ks *tinkpb.Keyset, inj string) (*tinkpb.Keyset, bool) {
+	changed := false
 	for _, i := range strings.Split(inj, ",") {
 		if ks == nil {
-			return nil
+			return nil, true
 		}
 		switch {
 		case i == "ks":
-			return nil
+			return nil, true
 		case i == "" || i == "-":
 		default:
 			idx, _ := strconv.Atoi(i[1:])
 			if idx < len(ks.Key) {
 				if i[0] == 'k' {
 					ks.Key[idx] = nil
+					changed = true
 				} else if i[0] == 'd' && ks.Key[idx] != nil {
 					ks.Key[idx].KeyData = nil
+					changed = true
 				}
 			}
 		}
 	}
-	return ks
+	return ks, changed
 }
 
 // run holds everything one case produces: the handles of each entry point and
@@ -324,7 +327,7 @@ func execute(in string) *run {
 		}
 		// the U decision looks at the message before the injections
 		r.pre, r.decoded = proto.Clone(ks).(*tinkpb.Keyset), true
-		ks2 := applyInj(ks, f[2])
+		ks2, changed := applyInj(ks, f[2])
 		r.ks = ks2
 		var h *keyset.Handle
 		var err error
@@ -336,7 +339,7 @@ func execute(in string) *run {
 		add("c", h, err)
 		h, err = keyset.NewHandleWithNoSecrets(ks2)
 		add("n", h, err)
-		if strings.Trim(f[2], "-,") != "" {
+		if changed {
 			r.wantErr = "nil keyset / key / key data"
 		}
 	case "E":
@@ -699,7 +702,7 @@ func selfCheck(p any, k key.Key, typeURL string) (res string) {
 		if err != nil {
 			return ""
 		}
-		if strings.HasSuffix(typeURL, "SlhDsaPrivateKey") {
+		if strings.HasSuffix(typeURL, ".SlhDsaPrivateKey") {
 			return "" // the private key format embeds the public part (excepted by the property)
 		}
 		if v, ok := pubPrim().(tink.Verifier); ok {
@@ -809,7 +812,7 @@ func factories(h *keyset.Handle) (res string) {
 					slh := false
 					if prim != nil {
 						for i, ki := range h.KeysetInfo().GetKeyInfo() {
-							if e, _ := h.Entry(i); e != nil && e.IsPrimary() && strings.HasSuffix(ki.GetTypeUrl(), "SlhDsaPrivateKey") {
+							if e, _ := h.Entry(i); e != nil && e.IsPrimary() && strings.HasSuffix(ki.GetTypeUrl(), ".SlhDsaPrivateKey") {
 								slh = true
 							}
 						}
@@ -909,7 +912,7 @@ func c14Check(in, obs string) string {
 			return fmt.Sprintf("path %s: handle returned although the input must be rejected (%s)", r.paths[i], must)
 		}
 		if r.paths[i] == "n" && r.ks != nil && hasSecretMaterial(r.ks) {
-			return "no-secrets reader returned a handle for a keyset with secret or unknown key material"
+			return "nosecrets-material: no-secrets reader returned a handle for a keyset whose key material type is not ASYMMETRIC_PUBLIC or REMOTE"
 		}
 		if w := wellFormed(h); w != "" {
 			return fmt.Sprintf("path %s: ill-formed handle: %s", r.paths[i], w)
@@ -940,7 +943,7 @@ func c14Check(in, obs string) string {
 			if w := weakKey(kd); w != "" {
 				return fmt.Sprintf("weak-key: entry %d (%s): %s, yet a primitive is created", j, strings.TrimPrefix(kd.GetTypeUrl(), tp), w)
 			}
-			if strings.HasSuffix(kd.GetTypeUrl(), "SlhDsaPrivateKey") && !strings.Contains(in, "sign-slh") && len(in)%7 != 0 {
+			if strings.HasSuffix(kd.GetTypeUrl(), ".SlhDsaPrivateKey") && !strings.Contains(in, "sign-slh") && len(in)%7 != 0 {
 				continue // SLH-DSA signing is slow: exercised on a fraction of the cases
 			}
 			if w := selfCheck(p, e.Key(), kd.GetTypeUrl()); w != "" {
@@ -949,7 +952,7 @@ func c14Check(in, obs string) string {
 		}
 		slh := false
 		for _, ki := range info.GetKeyInfo() {
-			if strings.HasSuffix(ki.GetTypeUrl(), "SlhDsaPrivateKey") {
+			if strings.HasSuffix(ki.GetTypeUrl(), ".SlhDsaPrivateKey") {
 				slh = true
 			}
 		}
